@@ -149,8 +149,26 @@ def compare_values(got, exp):
     return bad
 
 
-def phantom_prefixes(stored_coords, sup, ofmt):
-    """Stored level prefixes of compressed output levels without structural support."""
+def level_prefixes(levels, lvl_dims):
+    """levels: per level None (dense) or (pos, crd) of a well-formed tensor.  Returns {compressed level l: set of
+    level-order coordinate prefixes stored at l} - including prefixes whose child segment is empty, which no
+    complete stored coordinate reveals."""
+    prefixes = [((), 0)]
+    out = {}
+    for l, lv in enumerate(levels):
+        if lv is None:
+            d = lvl_dims[l]
+            prefixes = [(p + (x,), q * d + x) for p, q in prefixes for x in range(d)]
+        else:
+            pos, crd = lv
+            prefixes = [(p + (crd[k],), k) for p, q in prefixes for k in range(pos[q], pos[q + 1])]
+            out[l] = {p for p, _ in prefixes}
+    return out
+
+
+def phantom_prefixes(stored_coords, sup, ofmt, level_sets=None):
+    """Stored level prefixes of compressed output levels without structural support.  With level_sets (from
+    level_prefixes) the stored-but-empty prefixes are judged too."""
     out = []
     ordering = ofmt.ordering
     for l, mode in enumerate(ofmt.modes):
@@ -164,7 +182,18 @@ def phantom_prefixes(stored_coords, sup, ofmt):
         for c in stored_coords:
             if proj(c) not in sp:
                 out.append((l, proj(c)))
+        if level_sets is not None:
+            for pre in level_sets.get(l, ()):
+                if tuple(pre) not in sp:
+                    out.append((l, tuple(pre)))
     return sorted(set(out))
+
+
+def image_level_sets(image, ofmt, odims):
+    if image is None:
+        return None
+    levels = [None if lv is None else (lv["pos"], lv["crd"]) for lv in image["levels"]]
+    return level_prefixes(levels, [odims[o] for o in ofmt.ordering])
 
 
 def image_structure(image):
@@ -238,7 +267,7 @@ def run_evaluate(kc: KernelCase, DIM, joint, opts, stats, refcache):
         out.append(finding(["C01"], "value", f"evaluate value differs from tensor algebra at {bad[0][0]}: "
                            f"got {bad[0][1]}, expected {bad[0][2]}", cj(mismatches=bad[:4]),
                            kernel="evaluate"))
-    ph = phantom_prefixes(list(stored), sup, kc.ofmt)
+    ph = phantom_prefixes(list(stored), sup, kc.ofmt, image_level_sets(image, kc.ofmt, odims))
     if ph:
         stats["evaluate phantom"] += 1
         out.append(finding(["C03"], "phantom", f"evaluate stores unsupported coordinate prefix {ph[0][1]} "
@@ -359,7 +388,7 @@ def run_assemble_compute(kc: KernelCase, DIM, joint, opts, stats, einfo):
                                kernel="compute", run=min(gen + 1, 2)))
             break
         if gen == 0 and "sup" in einfo:
-            ph = phantom_prefixes(list(stored), einfo["sup"], kc.ofmt)
+            ph = phantom_prefixes(list(stored), einfo["sup"], kc.ofmt, image_level_sets(image, kc.ofmt, odims))
             if ph:
                 out.append(finding(["C03", "C04"], "phantom",
                                    f"assemble stores unsupported coordinate prefix {ph[0][1]}",
@@ -419,41 +448,45 @@ def scaled_structure(st: Structure, ref_idx, x, factor, shift):
 def run_work_scaling(kc, DIM, joint, x, opts, stats):
     out = []
     refs = space.operand_refs(kc.prog)
-    base = None
     steps = 0
-    for shift in (False, True):
-        for factor in opts.get("scalings", (1, 2, 10, 10000)):
-            if shift and factor == 1:
-                continue
-            j2 = {n: (scaled_structure(st, refs[n], x, factor, shift) if x in refs[n] else st)
-                  for n, st in joint.items()}
-            D2 = dict(DIM)
-            D2[x] = DIM[x] * factor
-            vals, _env = make_env(j2)
-            m = Machine(generic=True, budget=step_budget(DIM, joint) * 4, lenient_uninit=True)
-            fn = kc.fns["evaluate"]
-            try:
-                args, _ts, _od = kc.build_args(m, fn, D2, j2, vals)
-                m.call(fn, args)
-            except Fault as f:
-                out.append(finding(["C16"] if f.kind == "budget" else ["C05"], "work-fault",
-                                   f"evaluate with dimension {x} scaled x{factor}: {f}",
-                                   case_json(kc, D2, j2, {"index": x, "factor": factor, "shift": shift}),
-                                   fault=f.kind))
-                return out, steps
-            steps += m.steps
-            # loop sites are identified by their order of first execution + iteration counts
-            profile = (m.steps, tuple(sorted(m.loop_iters.items())))
-            if base is None:
-                base = profile
-            elif profile != base:
-                stats["work depends on dimension"] += 1
-                out.append(finding(["C16"], "work-scales",
-                                   f"steps/loop iterations change when dimension {x} is scaled x{factor} "
-                                   f"(shifted={shift}): {base[0]} -> {profile[0]} steps",
-                                   case_json(kc, D2, j2, {"index": x, "factor": factor, "shift": shift,
-                                                          "base_steps": base[0], "steps": profile[0]})))
-                return out, steps
+    for kind in opts.get("work_kinds", ("evaluate", "assemble+compute")):
+        base = None
+        for shift in (False, True):
+            for factor in opts.get("scalings", (1, 2, 10, 10000)):
+                if shift and factor == 1:
+                    continue
+                j2 = {n: (scaled_structure(st, refs[n], x, factor, shift) if x in refs[n] else st)
+                      for n, st in joint.items()}
+                D2 = dict(DIM)
+                D2[x] = DIM[x] * factor
+                vals, _env = make_env(j2)
+                m = Machine(generic=True, budget=step_budget(DIM, joint) * 4, lenient_uninit=True)
+                try:
+                    ts_out = None
+                    for name in kind.split("+"):
+                        args, ts_out, _od = kc.build_args(m, kc.fns[name], D2, j2, vals, out_ts=ts_out)
+                        m.call(kc.fns[name], args)
+                except Fault as f:
+                    out.append(finding(["C16"] if f.kind == "budget" else ["C05"], "work-fault",
+                                       f"{kind} with dimension {x} scaled x{factor}: {f}",
+                                       case_json(kc, D2, j2, {"index": x, "factor": factor, "shift": shift,
+                                                              "kernel": kind}),
+                                       fault=f.kind))
+                    return out, steps
+                steps += m.steps
+                # loop sites are identified by their order of first execution + iteration counts
+                profile = (m.steps, tuple(sorted(m.loop_iters.items())))
+                if base is None:
+                    base = profile
+                elif profile != base:
+                    stats["work depends on dimension"] += 1
+                    out.append(finding(["C16"], "work-scales",
+                                       f"{kind}: steps/loop iterations change when dimension {x} is scaled x{factor} "
+                                       f"(shifted={shift}): {base[0]} -> {profile[0]} steps",
+                                       case_json(kc, D2, j2, {"index": x, "factor": factor, "shift": shift,
+                                                              "kernel": kind,
+                                                              "base_steps": base[0], "steps": profile[0]})))
+                    return out, steps
     return out, steps
 
 
